@@ -105,8 +105,23 @@ def progress_rule(model: Model, run: Run) -> None:
             n += 1
             t = w.test
             ok, why = False, "loop condition shape not recognised"
-            if isinstance(t, ast.Compare) and len(t.ops) == 1 and isinstance(t.ops[0], ast.Lt) and isinstance(t.left, ast.Name) and isinstance(t.comparators[0], ast.Call) and norm(t.comparators[0].func) == "len":
-                c = t.left.id
+            def counter_of(e: ast.expr):
+                """c for a test  c < len(x)"""
+                if isinstance(e, ast.Compare) and len(e.ops) == 1 and isinstance(e.ops[0], ast.Lt) and isinstance(e.left, ast.Name) and isinstance(e.comparators[0], ast.Call) and norm(e.comparators[0].func) == "len":
+                    return e.left.id
+                return None
+            c = counter_of(t)
+            if c is None and isinstance(t, ast.BoolOp) and isinstance(t.op, ast.And):
+                c = counter_of(t.values[0])           # while c < len(x) and <more>: leaving early only shortens the loop
+            if c is None and isinstance(t, ast.Constant) and t.value is True:
+                # while True: ... if c >= len(x): break ...  - the loop is bounded by the same counter through its break guard
+                for b in w.body:
+                    if isinstance(b, ast.If) and b.body and isinstance(b.body[-1], ast.Break) and isinstance(b.test, ast.Compare) and len(b.test.ops) == 1 \
+                            and isinstance(b.test.left, ast.Name) and isinstance(b.test.comparators[0], ast.Call) and norm(b.test.comparators[0].func) == "len" \
+                            and isinstance(b.test.ops[0], (ast.GtE, ast.Eq)):
+                        c = b.test.left.id
+                        break
+            if c is not None:
                 ok, why = advances_on_all_paths(w.body, c)
             elif isinstance(t, ast.Name):
                 # `while reader:` - each iteration must call a read on it (or break/raise)
